@@ -56,7 +56,7 @@ func c07(c *Ctx) {
 			continue
 		}
 		next, roc = core.Unwrap(next), core.Unwrap(roc)
-		seqTransition(c, n, next, roc)
+		seqTransition(c, n, effectiveBody(next), roc)
 	}
 	// every other mutex-bearing struct in the module follows the same discipline (none today)
 	for _, g := range guarded {
@@ -104,12 +104,90 @@ func isAddConst(v ssa.Value, k int64) (ssa.Value, bool) {
 	return nil, false
 }
 
+// effectiveBody: when fn itself stores nothing into its receiver and hands the work to exactly one
+// helper method of the same receiver (NextSequenceNumber -> advance, called with the lock held), the
+// transition rules are checked on that helper.
+func effectiveBody(fn *ssa.Function) *ssa.Function {
+	for depth := 0; depth < 3; depth++ {
+		if fn == nil || len(fn.Params) == 0 {
+			return fn
+		}
+		recv := fn.Params[0]
+		stores := 0
+		var helper *ssa.Function
+		nHelpers := 0
+		for _, b := range fn.Blocks {
+			for _, in := range b.Instrs {
+				switch x := in.(type) {
+				case *ssa.Store:
+					if root, _ := core.AddrKey(x.Addr); root == recv {
+						stores++
+					}
+				case *ssa.Call:
+					if g := x.Call.StaticCallee(); g != nil && core.InModule(g) && len(g.Blocks) > 0 && len(x.Call.Args) > 0 && x.Call.Args[0] == recv {
+						helper = g
+						nHelpers++
+					}
+				}
+			}
+		}
+		if stores > 0 || nHelpers != 1 {
+			return fn
+		}
+		fn = helper
+	}
+	return fn
+}
+
 func seqTransition(c *Ctx, n *types.Named, next, roc *ssa.Function) {
 	p, r := c.Prog, c.R
 	nextName, rocName := core.FuncName(next), core.FuncName(roc)
 	recv := next.Params[0]
 	// 1. the returned value of NextSequenceNumber identifies the counter field
 	rets := retValues(next)
+	// several returns are one return when all but one hand back a constant that the path has just
+	// established for the same value (`if next != 0 { return next }; ...; return 0`)
+	if len(rets) > 1 {
+		var nonConst []ssa.Value
+		okConst := true
+		for _, b := range next.Blocks {
+			if len(b.Instrs) == 0 || b == next.Recover {
+				continue
+			}
+			ret, ok := b.Instrs[len(b.Instrs)-1].(*ssa.Return)
+			if !ok || len(ret.Results) == 0 {
+				continue
+			}
+			v := core.Resolve(ret.Results[0])
+			k, isC := core.ConstInt(v)
+			if !isC {
+				nonConst = append(nonConst, v)
+				continue
+			}
+			// the constant must be implied by a dominating comparison of a value with that constant
+			implied := false
+			for _, g := range core.DominatingGuards(b) {
+				if cmp, ok := g.Cond.(*ssa.BinOp); ok {
+					if c, isK := core.ConstInt(cmp.Y); isK && c == k && ((cmp.Op == token.EQL && g.Truth) || (cmp.Op == token.NEQ && !g.Truth)) {
+						implied = true
+						nonConst = append(nonConst, core.Resolve(cmp.X))
+					}
+				}
+			}
+			if !implied {
+				okConst = false
+			}
+		}
+		same := okConst && len(nonConst) > 0
+		for _, v := range nonConst {
+			if v != nonConst[0] {
+				same = false
+			}
+		}
+		if same {
+			rets = []ssa.Value{nonConst[0]}
+		}
+	}
 	if len(rets) != 1 {
 		r.Add("SEQ.return", nextName, "single return", p.Position(next.Pos()), false, fmt.Sprintf("%d normal returns", len(rets)))
 		return
